@@ -1,5 +1,6 @@
 #!/bin/sh
-# Builds the framework (bin/vcheck) from files on disk only (offline).
+# Builds the framework (bin/vcheck) and the base Go build cache (bin/gocache)
+# from files on disk only (offline).
 set -e
 cd "$(dirname "$0")"
 for d in /root/go/pkg/mod/golang.org/toolchain@v0.0.1-go1.25.5.linux-amd64/bin /opt/veriftools/go1.26.8/bin /root/go/pkg/mod/golang.org/toolchain@v0.0.1-go1.26.8.linux-amd64/bin; do
@@ -8,5 +9,60 @@ done
 export PATH GOTOOLCHAIN=local GOPROXY=off GOSUMDB=off GOFLAGS=-mod=mod
 unset GOWORK
 mkdir -p bin evidence
+# base build cache: everything that does not change between runs (standard
+# library, x/tools, kessoku's dependencies, wire), plain and under -race.
+# vcheck hard-links it into a private per-run cache, which is deleted on exit.
+export GOCACHE="$PWD/bin/gocache"
+mkdir -p "$GOCACHE"
 (cd harness && go build -o ../bin/vcheck ./cmd/vcheck)
-echo "setup ok: $(go version)"
+W=$(mktemp -d /tmp/vk-setup-XXXXXX)
+trap 'rm -rf "$W"' EXIT
+cat > "$W/go.mod" <<EOM
+module vkwarm
+
+go 1.24.0
+
+require (
+	github.com/mazrean/kessoku v0.0.0
+	golang.org/x/sync v0.19.0
+	github.com/google/wire v0.7.0
+	golang.org/x/tools v0.42.0
+)
+
+replace github.com/mazrean/kessoku => /repo
+EOM
+cp /repo/go.sum "$W/go.sum"
+mkdir -p "$W/warm"
+cat > "$W/warm/warm.go" <<EOM
+package main
+
+import (
+	"context"
+	"errors"
+	"fmt"
+	"reflect"
+	"regexp"
+	"sync/atomic"
+	"time"
+	"encoding/json"
+	"hash/fnv"
+	"bufio"
+
+	_ "github.com/google/wire"
+	_ "github.com/mazrean/kessoku"
+	"golang.org/x/sync/errgroup"
+)
+
+func main() {
+	var g errgroup.Group
+	_ = g.Wait()
+	_, _, _, _, _, _, _ = context.Background, errors.New, fmt.Sprint, reflect.TypeOf, regexp.MustCompile, time.Now, json.Marshal
+	var x atomic.Int64
+	_ = x.Load()
+	_ = fnv.New64a()
+	_ = bufio.NewScanner
+}
+EOM
+(cd "$W" && go build -o "$W/warm.bin" ./warm && go build -race -o "$W/warm-race.bin" ./warm && go build -o "$W/wire.bin" github.com/google/wire/cmd/wire) >/dev/null 2>&1 || echo "setup: warm-up build failed (the checks will compile what they need themselves)"
+(cd /repo && GOWORK=off GOFLAGS=-mod=readonly go build -tags verif -o "$W/kessoku.bin" ./cmd/kessoku) >/dev/null 2>&1 || true
+echo "setup ok: $(go version); base cache $(du -sh "$GOCACHE" | cut -f1)"
